@@ -34,6 +34,14 @@ RULE += (
     "KeyboardInterrupt (process alive, the code's own error handling runs; afterwards old-or-new, and a later "
     "fault-free run must give the complete new state)."
 )
+RULE += (
+    " Second generation: after every fault plan of a store, the same process (same pid, hence the same temp-file name) "
+    "stores the key again fault-free with an entry serialised shorter than, identical to and longer than the "
+    "interrupted one; a fresh cache object must then see exactly what that store alone gives. Histories on one key: "
+    "every sequence of <=3 operations over {store one of 6 entries that share a checksum but differ in a value, in the "
+    "eclass data, in the key set, or differ in the checksum only; delete}, with one cache object for the whole history "
+    "and with a fresh object per operation; after every operation a fresh object must read exactly the last stored entry."
+)
 ASSUMPTIONS = [
     "Excl: keys/values containing a line break (the format is line based) or a tab in eclass names/paths (the eclass field separator)",
     "Excl: values with leading or trailing whitespace (entries are read with strip_whitespace=True; observed: 'a ' comes back as 'a', ' b' survives)",
@@ -46,8 +54,10 @@ ASSUMPTIONS = [
 ]
 BOUNDS = {
     "quick": "2 layouts x 2 depths x 3 previous states x (125 key dicts x 2 unknown-key x 3 chf on a fixed eclass map + 11 eclass maps x 5 key dicts x 3 chf) = 10 980 round trips "
-    "(store, read, list, sibling, delete); crash sweep: 2 layouts x 2 depths x 3 previous states x (8 new entries + delete) = 100 scenarios, every crash point and torn write (728 executions)",
-    "thorough": "full product 125 key dicts x 2 unknown-key x 11 eclass maps x 3 chf x 2 layouts x 2 depths x 3 previous states = 99 000 round trips; crash sweep over 24 new entries (292 scenarios, 2168 executions)",
+    "(store, read, list, sibling, delete); 2 layouts x 2 depths x 2 object modes x all 399 store/delete histories of <=3 operations over 7 operations; "
+    "crash sweep: 2 layouts x 2 depths x 3 previous states x (8 new entries + delete) = 100 scenarios, every crash point, crash-after-rename, torn write and "
+    "write fault, each followed by 3 second-generation stores (~6k executions)",
+    "thorough": "full product 125 key dicts x 2 unknown-key x 11 eclass maps x 3 chf x 2 layouts x 2 depths x 3 previous states = 99 000 round trips; same histories; crash sweep over 24 new entries (292 scenarios)",
 }
 
 # ---------------------------------------------------------------------------------------------
@@ -236,7 +246,93 @@ def check_roundtrip(base, layout, cpv, prev, ent):
 # crash sweep -------------------------------------------------------------------------------
 
 
-def check_sweep(scr, layout, cpv, prev, op_kind, ent, only_plan=None):
+# store/delete histories on one key ----------------------------------------------------------------
+
+_CHF_A, _CHF_B = (1000, 2**128 - 1), (2000, 5)
+HIST_VALUES = [
+    entry({"DESCRIPTION": "one"}, None, [list(ECL_ATOMS[0])], _CHF_A),
+    entry({"DESCRIPTION": "two"}, None, [list(ECL_ATOMS[0])], _CHF_A),  # same checksum, other value
+    entry({"DESCRIPTION": "one"}, None, [list(ECL_ATOMS[0]), list(ECL_ATOMS[2])], _CHF_A),  # same checksum, other eclasses
+    entry({"DESCRIPTION": "one", "SLOT": "1"}, None, None, _CHF_A),  # same checksum, another key, no eclass data
+    entry({"DESCRIPTION": "one"}, None, [list(ECL_ATOMS[0])], _CHF_B),  # other checksum only
+    entry({}, None, None, _CHF_A),  # same checksum, nothing else
+]
+HIST_OPS = [["store", i] for i in range(len(HIST_VALUES))] + [["delete"]]
+HIST_MODES = ["one-object", "fresh-object-per-op"]
+
+
+def check_history(base, layout, cpv, mode, ops):
+    """stores and deletes on one key; after every operation a fresh cache object must see exactly the last stored
+    entry (or nothing after a delete). -> (messages, class names)"""
+    shutil.rmtree(base, ignore_errors=True)
+    os.makedirs(base)
+    names = {f"hist:{layout}:{mode}"}
+    db = open_cache(layout, base)
+    cur = None
+    done = []
+    for op in ops:
+        if mode != "one-object":
+            db = open_cache(layout, base)
+        done.append(op)
+        try:
+            if op[0] == "store":
+                new = HIST_VALUES[op[1]]
+                if cur is not None:
+                    same_chf = cur["chf"] == new["chf"]
+                    names.add("hist:overwrite-same-chf-" + ("identical" if cur == new else "other-data") if same_chf else "hist:overwrite-other-chf")
+                else:
+                    names.add("hist:store-on-absent")
+                store(db, cpv, new)
+                cur = new
+            else:
+                names.add("hist:delete-present" if cur is not None else "hist:delete-absent")
+                try:
+                    del db[cpv]
+                except KeyError:
+                    if cur is not None:
+                        raise
+                cur = None
+        except Exception as e:
+            return [f"{layout} cache, {cpv}, {mode}, history {_hist_text(done)}: raised {type(e).__name__}: {e}"[:900]], names
+        got = read(layout, base, cpv)
+        exp = model_read(layout, cur) if cur is not None else "KeyError"
+        keys = listing(layout, base)
+        exp_keys = [cpv] if cur is not None else []
+        if got != exp or keys != exp_keys:
+            names.add("hist:MISMATCH")
+            return [
+                f"{layout} cache, {cpv}, {mode}, history {_hist_text(done)}: a fresh cache object reads {_brief(got)} keys {keys!r}, "
+                f"expected {_brief(exp)} keys {exp_keys!r}"[:900]
+            ], names
+    return [], names
+
+
+def _hist_text(ops):
+    return [("store " + repr({k: HIST_VALUES[o[1]][k] for k in ("keys", "chf")}) + f" ecl#{len(HIST_VALUES[o[1]]['ecl'] or [])}") if o[0] == "store" else "delete" for o in ops]
+
+
+def hist_space(tier, i):
+    depth = 3
+    out = [[HIST_OPS[i]]]
+    for d in range(2, depth + 1):
+        for rest in itertools.product(HIST_OPS, repeat=d - 1):
+            out.append([HIST_OPS[i]] + [list(o) for o in rest])
+    return out
+
+
+# follow-up stores on the same key by the same process, right after an interrupted store: serialised shorter than,
+# identical to and longer than the interrupted entry (a stale temp file of the same pid must not leak into it)
+FOLLOW_SHORT = entry({}, None, None, (1, 1))
+FOLLOW_LONG = entry(
+    {"DESCRIPTION": "long " * 40, "DEPEND": "dep/" * 30, "SLOT": "9/9"}, "junk value " * 5, [list(a) for a in ECL_ATOMS], CHFS[2]
+)
+
+
+def follow_ups(ent):
+    return [("shorter", FOLLOW_SHORT), ("same", ent), ("longer", FOLLOW_LONG)]
+
+
+def check_sweep(scr, layout, cpv, prev, op_kind, ent, only_plan=None, only_follow=None):
     from verif import c24c30_sweep as sw
 
     base = scr.data
@@ -268,6 +364,14 @@ def check_sweep(scr, layout, cpv, prev, op_kind, ent, only_plan=None):
         return [dict(desc, plan=None, msg=f"fault-free {op_kind} failed: {status} {value!r}")], {}, 0
     new_obs = observe()
     viol, classes, n = [], {}, 0
+    follows, follow_exp = [], {}
+    if op_kind == "store":
+        follows = follow_ups(ent)
+        for fname, fent in follows:  # what the follow-up store alone gives, fault-free
+            scr.reset()
+            prepare()
+            sw.rerun(lambda: store(open_cache(layout, base), cpv, fent))
+            follow_exp[fname] = observe()
     for plan in sw.plans(events, scr.nwrites):
         if only_plan is not None and list(plan) != list(only_plan):
             continue
@@ -304,15 +408,27 @@ def check_sweep(scr, layout, cpv, prev, op_kind, ent, only_plan=None):
             )
         if not sw.fired(status):
             viol.append(dict(desc, plan=list(plan), msg=f"engine: plan {plan} did not fire ({status})"))
-        if plan[0] in sw.WRITE_FAULTS:
-            # the process survived the failed write: a later fault-free store must give the complete new state
-            sw.rerun(op)
+        # second generation: the same process (same pid, so the same temp name) stores the key again, fault-free,
+        # right after the interrupted/failed store; a fresh cache object must then see exactly that second entry
+        for j, (fname, fent) in enumerate(follows):
+            if only_follow is not None and fname != only_follow:
+                continue
+            if j or only_follow is not None:
+                sw.run_plan(scr, prepare, op, plan)  # every follow-up starts from the state the fault left
+            n += 1
+            sw.rerun(lambda: store(open_cache(layout, base), cpv, fent))
             obs2 = observe()
-            if obs2 != new_obs:
-                out += "+recovery-bad"
+            if obs2 != follow_exp[fname]:
+                out += "+follow-" + fname + "-bad"
                 viol.append(
-                    dict(desc, plan=list(plan), msg=f"{layout} cache, {cpv} over '{prev}': after {where} a later fault-free {op_kind} does not give the new state: "
-                    f"cache[{cpv!r}] -> {_brief(obs2['read'])}, keys {obs2['keys']!r}"[:900])
+                    dict(
+                        desc,
+                        plan=list(plan),
+                        follow=fname,
+                        msg=f"{layout} cache, store {cpv} over '{prev}' interrupted at {where}, then the same process stores a {fname} entry "
+                        f"{_brief(fent)} on that key: a fresh cache object sees cache[{cpv!r}] -> {_brief(obs2['read'])}, keys {obs2['keys']!r}; "
+                        f"expected {_brief(follow_exp[fname]['read'])}, keys {follow_exp[fname]['keys']!r}"[:900],
+                    )
                 )
         key = f"sweep:{layout}:{op_kind}:{sw.plan_class(events, plan)}:{out}"
         classes[key] = classes.get(key, 0) + 1
@@ -384,6 +500,9 @@ def tasks(tier):
             out.append(("rt", tier, layout, cpv, prev, i, min(n, i + RT_CHUNK * (1 if tier == "quick" else 8))))
     for layout, cpv, prev in itertools.product(LAYOUTS, CPVS, PREVS):
         out.append(("sweep", tier, layout, cpv, prev))
+    for layout, cpv, mode in itertools.product(LAYOUTS, CPVS, HIST_MODES):
+        for i in range(len(HIST_OPS)):
+            out.append(("hist", tier, layout, cpv, mode, i))
     return out
 
 
@@ -436,6 +555,18 @@ def work(task):
                 for k in names:
                     classes[k] = classes.get(k, 0) + 1
             samples = [{"layout": layout, "cpv": cpv, "prev": prev, "ent": space[lo]}]
+        elif task[0] == "hist":
+            _, tier, layout, cpv, mode, i = task
+            wd = os.path.join(base, "w")
+            space = hist_space(tier, i)
+            for ops in space:
+                evals += 1
+                msgs, names = check_history(wd, layout, cpv, mode, ops)
+                if msgs:
+                    viol.append({"kind": "hist", "layout": layout, "cpv": cpv, "mode": mode, "ops": ops, "msg": msgs[0]})
+                for k in names:
+                    classes[k] = classes.get(k, 0) + 1
+            samples = [{"layout": layout, "cpv": cpv, "mode": mode, "history": _hist_text(space[-1])}]
         else:
             _, tier, layout, cpv, prev = task
             scr = sw.Scratch(base)
@@ -466,9 +597,13 @@ def replay(case):
     try:
         if case["kind"] == "rt":
             return check_roundtrip(os.path.join(base, "w"), case["layout"], case["cpv"], case["prev"], case["ent"])
+        if case["kind"] == "hist":
+            return check_history(os.path.join(base, "w"), case["layout"], case["cpv"], case["mode"], case["ops"])[0]
         scr = sw.Scratch(base)
-        v, _, _ = check_sweep(scr, case["layout"], case["cpv"], case["prev"], case["op"], case["ent"], only_plan=case["plan"])
-        return [x["msg"] for x in v]
+        v, _, _ = check_sweep(
+            scr, case["layout"], case["cpv"], case["prev"], case["op"], case["ent"], only_plan=case["plan"], only_follow=case.get("follow")
+        )
+        return [x["msg"] for x in v if x.get("follow") == case.get("follow")]
     finally:
         shutil.rmtree(base, ignore_errors=True)
 
